@@ -252,9 +252,16 @@ func ruleMultilineReader(c *Ctx) {
 	}
 	sort.Strings(modes)
 	var machine *ast.SwitchStmt
+	machineLabel := ""
 	for _, st := range inner.Body.List {
+		label := ""
+		if ls, ok := st.(*ast.LabeledStmt); ok {
+			st = ls.Stmt
+			label = ls.Label.Name
+		}
 		if sw, ok := st.(*ast.SwitchStmt); ok && sw.Tag != nil && usesObj(sw.Tag, modeObj) {
 			machine = sw
+			machineLabel = label
 		}
 	}
 	if machine == nil {
@@ -285,6 +292,51 @@ func ruleMultilineReader(c *Ctx) {
 	}
 	if len(modes) < 10 {
 		c.Ob("R5-modes", "base.mode", nil, false, "fewer than 10 modes found: anchor missing")
+	}
+	// ---- R7: operator look-ahead states hand the look-ahead character back to the normal state.
+	// After '+', '-' or '/' the reader waits for the next character to tell ++ -- // /* from a plain operator; when it
+	// is none of those, that character is an ordinary one (it may open a bracket or a string) and must be examined by
+	// the mNormal arm: through a fallthrough into it, or a goto to the label of the state machine.
+	for _, m := range []string{"mPlus", "mMinus", "mSlash"} {
+		cl := arm[m]
+		if cl == nil {
+			continue
+		}
+		redispatch := false
+		// (a) the clause ends with fallthrough and the next clause is mNormal
+		if n := len(cl.Body); n > 0 {
+			if br, ok := cl.Body[n-1].(*ast.BranchStmt); ok && br.Tok == token.FALLTHROUGH {
+				for i, cc := range machine.Body.List {
+					if cc == ast.Stmt(cl) && i+1 < len(machine.Body.List) && machine.Body.List[i+1] == ast.Stmt(arm["mNormal"]) {
+						redispatch = true
+					}
+				}
+			}
+		}
+		// (b) goto the machine's label, on the path that sets m = mNormal for a non-blank character
+		ast.Inspect(cl, func(n ast.Node) bool {
+			br, ok := n.(*ast.BranchStmt)
+			if !ok || br.Tok != token.GOTO || br.Label == nil || machineLabel == "" || br.Label.Name != machineLabel {
+				return true
+			}
+			// m = mNormal precedes it inside the same default clause of `switch ch`
+			for _, anc := range enclosingStack(cl, br) {
+				if dc, ok := anc.(*ast.CaseClause); ok && dc != cl && dc.List == nil {
+					setsNormal := false
+					ast.Inspect(dc, func(k ast.Node) bool {
+						if as, ok := k.(*ast.AssignStmt); ok && as.Pos() < br.Pos() && len(as.Lhs) == 1 && usesObj(as.Lhs[0], modeObj) && strings.HasSuffix(objQName(usedObj(info, as.Rhs[0])), "mNormal") {
+							setsNormal = true
+						}
+						return true
+					})
+					if setsNormal {
+						redispatch = true
+					}
+				}
+			}
+			return true
+		})
+		c.Ob("R7-lookahead", "base.ReadMultiline/"+m, cl, redispatch, "the character that follows a plain "+map[string]string{"mPlus": "'+'", "mMinus": "'-'", "mSlash": "'/'"}[m]+" operator is examined again by the normal state (fallthrough or goto): it may open a bracket, a string or a rune literal")
 	}
 	// ---- R6: transition table of the literal / comment modes
 	// transitions[mode][char] = set of modes assigned
